@@ -6,8 +6,12 @@ import (
 	"encoding/json"
 	"fmt"
 	"math/rand"
+	"net"
 	"strings"
 	"time"
+
+	"github.com/insomniacslk/dhcp/dhcpv4"
+	"github.com/insomniacslk/dhcp/dhcpv6"
 
 	"verif/internal/fw"
 	"verif/internal/pkt"
@@ -27,6 +31,9 @@ type orderCase struct {
 	Chain []orderPlug `json:"chain"`
 	YAML  bool        `json:"yaml"`
 	Both  bool        `json:"both"` // configure the same chain for both protocols
+	// OtherBad: the other protocol's section lists this failing plugin (and nothing else);
+	// the protocol under test lists a clean chain. Start-up must still abort.
+	OtherBad string `json:"other_bad,omitempty"`
 }
 
 type orderEngine struct{}
@@ -77,6 +84,15 @@ func (orderEngine) Gen(rng *rand.Rand, tier string, i int) any {
 	}
 	c.YAML = rng.Intn(3) == 0
 	c.Both = rng.Intn(2) == 0
+	if rng.Intn(4) == 0 {
+		c.Both = false
+		c.OtherBad = []string{"synfail", "synnil", "nosuchplugin"}[rng.Intn(3)]
+		for j := range c.Chain { // the chain under test itself is clean
+			if c.Chain[j].Name != "syn4" && c.Chain[j].Name != "syn6" {
+				c.Chain[j].Name = "syn"
+			}
+		}
+	}
 	return c
 }
 
@@ -100,10 +116,24 @@ func (orderEngine) Run(ctx *fw.Ctx, cs any) {
 	if job.HasV6 {
 		job.V6 = pcs
 	}
+	if c.OtherBad != "" {
+		bad := []PlugConf{{c.OtherBad, []string{"pass", "77"}}}
+		if c.V6 {
+			job.HasV4, job.V4 = true, bad
+		} else {
+			job.HasV6, job.V6 = true, bad
+		}
+	}
 	if c.YAML {
 		var sb strings.Builder
 		sect := func(name, listen string) {
 			fmt.Fprintf(&sb, "%s:\n  listen: '%s'\n  plugins:\n", name, listen)
+			pcs := pcs
+			if name == "server4" {
+				pcs = job.V4
+			} else {
+				pcs = job.V6
+			}
 			for _, p := range pcs {
 				fmt.Fprintf(&sb, "    - %s: %s\n", p.Name, strings.Join(p.Args, " "))
 			}
@@ -130,6 +160,10 @@ func (orderEngine) Run(ctx *fw.Ctx, cs any) {
 			d := pkt.Msg6(typ, uint32(0x77+k), []pkt.Opt6{pkt.O6(pkt.OptClientID6, pkt.DUIDLL([]byte{2, 0, 0, 0, 0, 9})), pkt.ORO(23)})
 			job.Reqs = append(job.Reqs, ChainReq{V6: true, Hex: hex.EncodeToString(d), RxIf: fakeIf, Peer: "2001:db8:ffff::99", Port: 546})
 		}
+		// a relayed request: handlers must receive the packet as received (the Relay-Forward), not its inner message
+		inner := pkt.Msg6(1, 0x79, []pkt.Opt6{pkt.O6(pkt.OptClientID6, pkt.DUIDLL([]byte{2, 0, 0, 0, 0, 9})), pkt.ORO(23)})
+		rel := pkt.Relay6(12, 0, net.ParseIP("2001:db8:5::1"), net.ParseIP("fe80::5"), []pkt.Opt6{pkt.O6(pkt.OptInterfaceID, []byte("if5"))}, inner)
+		job.Reqs = append(job.Reqs, ChainReq{V6: true, Hex: hex.EncodeToString(rel), RxIf: fakeIf, Peer: "2001:db8:ffff::99", Port: 547})
 	} else {
 		for k, mt := range []byte{1, 3} {
 			p := pkt.Request4(uint32(0x88+k), []byte{2, 0, 0, 0, 0, 8}, mt)
@@ -138,7 +172,7 @@ func (orderEngine) Run(ctx *fw.Ctx, cs any) {
 		}
 	}
 	out := RunChain(job, ctx.Scratch, 60*time.Second)
-	desc := fmt.Sprintf("chain %v v6=%v both=%v yaml=%v", c.Chain, c.V6, c.Both, c.YAML)
+	desc := fmt.Sprintf("chain %v v6=%v both=%v yaml=%v other-protocol-lists=%q", c.Chain, c.V6, c.Both, c.YAML, c.OtherBad)
 	ctx.Nontrivial("C13", desc)
 
 	// which plugins must yield handlers for the protocol under test, and must setup fail?
@@ -180,10 +214,14 @@ func (orderEngine) Run(ctx *fw.Ctx, cs any) {
 	}
 	// A v4-only plugin listed for server6 (or vice versa) is skipped with a warning, not an error; but the
 	// failing kinds fail for whichever protocol lists them - both protocols list the same chain here.
+	if c.OtherBad != "" && mustFail == "" {
+		mustFail = "bad plugin in the other protocol's section: " + c.OtherBad
+		ctx.Count("order.must_fail_other_protocol", 1)
+	}
 	if mustFail != "" {
 		ctx.Count("order.must_fail", 1)
 		if out.SetupErr == "" {
-			ctx.Viol("C13", "bad-config-accepted:"+strings.ReplaceAll(mustFail, " ", "-"), "%s: start-up must abort with an error (%s); it succeeded", desc, mustFail)
+			ctx.Viol("C13", "bad-config-accepted:"+strings.ReplaceAll(strings.SplitN(mustFail, ":", 2)[0], " ", "-"), "%s: start-up must abort with an error (%s); it succeeded", desc, mustFail)
 		}
 		return
 	}
@@ -226,6 +264,9 @@ func (orderEngine) Run(ctx *fw.Ctx, cs any) {
 			continue
 		}
 		ctx.Count("order.invocations_checked", int64(len(tr)))
+		if len(tr) > 0 && ri < len(job.Reqs) && tr[0].ReqHex != canonReq(job.Reqs[ri]) {
+			ctx.Viol("C13", "request-not-original", "%s, request %d: handlers received a request that serialises to %s..., the datagram received was %s...", desc, ri, clipStr(tr[0].ReqHex, 60), clipStr(job.Reqs[ri].Hex, 60))
+		}
 		for k, e := range tr {
 			if e.Req != tr[0].Req {
 				ctx.Viol("C13", "request-not-original", "%s: handler #%d received request object %s, the first handler received %s", desc, e.ID, e.Req, tr[0].Req)
@@ -262,9 +303,11 @@ func (orderEngine) Run(ctx *fw.Ctx, cs any) {
 		b, _ := hex.DecodeString(r.Caps[0].Hex)
 		var mark []byte
 		if c.V6 {
-			if m, err := pkt.ParseMsg6(b); err == nil {
-				if v, n := m.Get(synthOpt6); n == 1 {
-					mark = v[0]
+			if _, inner, err := pkt.Unwrap6(b); err == nil {
+				if m, err := pkt.ParseMsg6(inner); err == nil {
+					if v, n := m.Get(synthOpt6); n == 1 {
+						mark = v[0]
+					}
 				}
 			}
 		} else if m, err := pkt.Parse4(b); err == nil {
@@ -279,4 +322,20 @@ func (orderEngine) Run(ctx *fw.Ctx, cs any) {
 	if ctx.WantSample("C13") {
 		ctx.Sample("C13", map[string]any{"case": desc, "handlers": gotN})
 	}
+}
+
+// canonReq is the codec's own serialisation of the datagram that was injected
+// (padding and option order are the codec's), for comparison with what handlers received.
+func canonReq(r ChainReq) string {
+	b, _ := hex.DecodeString(r.Hex)
+	if r.V6 {
+		if d, err := dhcpv6.FromBytes(b); err == nil {
+			return hex.EncodeToString(d.ToBytes())
+		}
+		return r.Hex
+	}
+	if d, err := dhcpv4.FromBytes(b); err == nil {
+		return hex.EncodeToString(d.ToBytes())
+	}
+	return r.Hex
 }
